@@ -73,6 +73,7 @@ class State:
         self.random_ops: Counter = Counter()
         self.in_format = 0
         self.undef_n = 0
+        self.noisy: set = set()
 
     # ---- shadows ---------------------------------------------------------------------------------
     def _flat(self, t: torch.Tensor):
@@ -1404,6 +1405,32 @@ def _map_tensors(x, f):
     return x
 
 
+_AMPLIFYING = {"mul", "div", "true_divide", "addcmul", "addcdiv", "mm", "bmm", "mv", "dot", "addmm", "baddbmm", "convolution", "pow",
+               "reciprocal", "linalg_inv_ex", "_linalg_det"}
+
+
+def _amplification(name, args) -> float:
+    """Rounding error already present in the witness values of the operands is amplified by products / quotients:
+    the validation tolerance is scaled by the magnitudes involved (e.g. x * 10^12 in round_decimals)."""
+    if name not in _AMPLIFYING:
+        return 1.0
+    scale = 1.0
+    for a in args[:3]:
+        try:
+            if isinstance(a, torch.Tensor):
+                if a.numel() and a.dtype.is_floating_point:
+                    m = float(a.detach().abs().max())
+                    if name in ("div", "true_divide", "reciprocal") and a is args[-1 if name != "reciprocal" else 0]:
+                        mn = float(a.detach().abs().min())
+                        m = max(m, 1.0 / mn) if mn > 0 else m
+                    scale *= 1.0 + m
+            elif isinstance(a, (int, float)):
+                scale *= 1.0 + abs(float(a))
+        except Exception:
+            pass
+    return min(scale, 1e30)
+
+
 class SymMode(TorchDispatchMode):
     def __init__(self, state: State):
         super().__init__()
@@ -1516,7 +1543,13 @@ class SymMode(TorchDispatchMode):
             if o.dtype == torch.bool:
                 r = _tobool_arr(r)
             st.set_payload(o, r)
-            self._validate(func, o, r)
+            amp = _amplification(name, args)
+            if amp > 1e4 or any(t.untyped_storage()._cdata in st.noisy for t in in_tensors):
+                # witness rounding error has been amplified beyond what a comparison can tolerate (e.g. x * 10^12 before
+                # rounding to 12 decimals): values derived from it are not validated
+                st.noisy.add(o.untyped_storage()._cdata)
+                continue
+            self._validate(func, o, r, amp)
 
     def _movement(self, func, name, args, kwargs, out, outs, written):
         st = self.st
@@ -1570,7 +1603,7 @@ class SymMode(TorchDispatchMode):
                 continue
             st.set_shadow(o, so)
 
-    def _validate(self, func, o: torch.Tensor, r: np.ndarray):
+    def _validate(self, func, o: torch.Tensor, r: np.ndarray, scale: float = 1.0):
         st = self.st
         run = st.run
         if not st.validate or not run.on_witness:
@@ -1591,7 +1624,7 @@ class SymMode(TorchDispatchMode):
                 fv = float(v)
                 if fv != fv or rv != rv or abs(rv) == math.inf:
                     continue
-                ok = abs(fv - rv) <= tol * max(1.0, abs(fv), abs(rv)) if flt else (abs(fv - rv) < 0.5)
+                ok = abs(fv - rv) <= tol * max(1.0, abs(fv), abs(rv)) * scale if flt else (abs(fv - rv) < 0.5)
             if not ok:
                 raise ModelMismatch(
                     f"{func} at {explore._site()}: symbolic semantics gives {v} but torch computed {rv} (payload {E.to_str(e, 4)})"
